@@ -894,3 +894,60 @@ def rule_main_group(ctx, rep):
     got_l, want_l = sorted(x.lower() for x in named), sorted(x.lower() for x in want)
     rep.check(got_l == want_l and text.count("operation swap") == 2, rule, "group verdicts as text", where, named, want,
               why="the text printed for a group configuration does not name the vulnerable transactions of each detector", sample={"lines": want})
+
+
+HIST_CONTRACTS = {
+    "x": "#pragma version 6\nint 0\ngtxns Amount\npop\ntxn GroupIndex\ngtxns Fee\npop\ntxna Accounts 0\npop\ntxn Amount\nbz a\nint 1\nreturn\na:\nint 1\nreturn\n",
+    "y": "#pragma version 6\narg 0\npop\nint 1\ngtxns Fee\npop\nint 2\ngtxns Amount\npop\ntxn GroupIndex\ngtxnsa ApplicationArgs 0\npop\nint 1\nreturn\n",
+}
+
+
+def rule_history_contracts(ctx, rep):
+    rule = "T-HISTORY(contracts)"
+    rep.rule(rule, "every detector (path-reporting and instruction-reporting) run on a Tealer object holding two contracts reports for each "
+                   "contract exactly what it reports when that contract is loaded alone, whichever contract is listed first (evaluated from a "
+                   "group configuration, per-contract output mode and group output mode)")
+    w = _capture(ctx)
+    GC = "tealer.utils.command_line.group_config"
+    from_yaml = w.getattr(w.cls(GC, "GroupConfig"), "from_yaml")
+    init = w.func(COMMON, "init_tealer_from_config")
+    where = ctx.path("tealer.tealer")
+    pf = w.module(PF)
+    pf.values["_apply_transaction_context_analysis"] = ("builtin", "noop")
+    dets = detector_classes(ctx)
+
+    def run(names, output_group):
+        w.files = {f"{n}.teal": HIST_CONTRACTS[n] for n in names}
+        w.dirs = set()
+        doc = {"name": "g",
+               "contracts": [{"name": n, "file_path": f"{n}.teal", "type": "LogicSig", "version": 6, "subroutines": [], "functions": [{"name": "main", "dispatch_path": ["B0"]}]} for n in names],
+               "groups": [{"operation": f"op_{n}", "transactions": [{"txn_id": f"t_{n}", "txn_type": "pay", "logic_sig": {"contract": n, "function": "main"}}]} for n in names]}
+        tl = w.call(init, w.call(from_yaml, doc))
+        Interp(tl.cls.mod).assign_attr(tl, "output_group", output_group)
+        for dn, dc in sorted(dets.items()):
+            w.call(w.method(tl, "register_detector"), dc)
+        out = {}
+        for res in w.call(w.method(tl, "run_detectors")):
+            for o in (res if isinstance(res, list) else [res]):
+                js = w.call(w.method(o, "to_json"))
+                owner = o.fields.get("_teal")
+                who = str(w.getattr(owner, "contract_name")) if owner is not None else "operation " + str(js.get("operation"))
+                out.setdefault((js.get("check"), who), []).append(json.dumps(js, sort_keys=True, default=str))
+        return out
+    for og in (False, True):
+        try:
+            alone = {n: run([n], og) for n in ("x", "y")}
+            both = {"x,y": run(["x", "y"], og), "y,x": run(["y", "x"], og)}
+        except PyRaise as e:
+            rep.violation(rule, f"runs (output_group={og})", where, f"RAISES {e.exc} {e.where}", "results")
+            continue
+        rep.check(all(len(v) >= 3 for v in alone.values()), rule, f"contracts alone produce results (output_group={og})", where, {k: len(v) for k, v in alone.items()}, ">= 3 each")
+        for order, res in both.items():
+            want = {}
+            for n in ("x", "y"):
+                want.update(alone[n])
+            diff = sorted(str(k) for k in set(want) | set(res) if want.get(k) != res.get(k))
+            rep.check(not diff, rule, f"contracts {order} loaded together (output_group={og})", where,
+                      {k: [len(res.get(eval(k), [])), len(want.get(eval(k), []))] for k in diff[:4]}, "each contract's results as when loaded alone",
+                      why="what is reported for a contract depends on the other contracts analysed with it",
+                      sample={"order": order, "results": len(want)})
